@@ -431,7 +431,7 @@ def _consistency(flavor, op, cbs, *, pid=None, bump=lambda k, n=1: None, rewritt
             # ---- ‖p‖², φγ ----------------------------------------------------------------------------
             P = S.frv(p)
             pTp = sum(a * a for a in P)
-            if not math.isfinite(cb['pTp']) or abs(Fr(cb['pTp']) - pTp) > 8 * (n + 4) * Fr(EPS) * pTp:
+            if not math.isfinite(cb['pTp']) or abs(Fr(cb['pTp']) - pTp) > 8 * (n + 4) * Fr(EPS) * pTp + Fr(2) ** -1040:
                 fail(k, cb, 'pTp', f'reported ‖p‖² = {cb["pTp"]!r}, the reported p has ‖p‖² = {float(pTp)!r}')
             v = cb['fbe']
             if v != v and (nan_inj or fixed_fista):
